@@ -12,6 +12,7 @@ import CruxVerif.Lemmas.GPark
 import CruxVerif.Lemmas.RCore
 import CruxVerif.Lemmas.LQ
 import CruxVerif.Lemmas.Complete
+import CruxVerif.Lemmas.CompleteS
 namespace Props.C07
 open M.Rt
 
@@ -399,6 +400,58 @@ example : ((M.Hosts.runDirect (.task simpleProg) false [.drop 1, .res 2 7, .res 
     (r.2.w.isDoneNow r.2.cid, r.1.map (·.done))) =
     some (true, [some false, some false, some false, some false, some true, some true, some true]) := by decide +kernel
 
+/-- **COMPLETENESS OF EVICTION WITH SELECT** — the same for `simpleS` task programs: simple programs plus `select` (any
+    nesting of emit, notify, request, stream, spawn, join, SELECT, self-wake). A completed select drops its losing branch and
+    leaves that branch's registrations behind, so here a task CAN stay `Suspended` although it is suspended only at closed
+    requests — held by a stale registration of its own waker at a channel whose sender is still alive (second example
+    below). The invariant `NDS` says exactly that: such a task is on the ready queue OR some channel still holds a waker of
+    it; `WOwn` (a channel a stored task references holds only that task's wakers) keeps other tasks' polls from overwriting
+    it, and whoever takes it — the shell resolving or dropping that request — wakes it (`take_wake_stale`). With every
+    channel closed no channel holds any waker (`LQ`), so the task was queued, polled and evicted: NO TASK REMAINS.
+    Lemmas/SimpleS, CompleteS (four more `grind` frames over `pollBlock`: SSGood, NASGood, MCGood, NWGood; the bundle `CS` —
+    freshness, well-formedness, channel ownership, simpleS, NAb, WOwn, NDS — through run_task, finishing, spawning, the
+    settle loops, the shell and the direct host). -/
+theorem command_with_select_done_when_all_requests_gone (is : List Instr) (hf : hostFreeIs is = true)
+    (hs : simpleSIs is = true) (canon : Bool) (acts : List M.Hosts.Action) (os : List M.Hosts.Obs) (d : M.Hosts.Direct)
+    (h : M.Hosts.runDirect (.task is) canon acts = some (os, d))
+    (hall : ∀ l, l < d.w.leaves.length → (d.w.leaf l).senderAlive = false ∧ (d.w.leaf l).legacy = false) (tid : Nat) :
+    (d.w.cmd d.cid).tasks.get? tid = none := by
+  obtain ⟨cs, hr⟩ := M.Hosts.runDirect_cs is hf hs canon acts os d h
+  cases hg : (d.w.cmd d.cid).tasks.get? tid with
+  | none => rfl
+  | some t =>
+    exfalso
+    have gone := all_requests_gone_leaves_only_dead_waits is hf canon acts os d h hr hall tid t hg (cs.na.getMeta t.serial)
+    have dead := deadOnly_of_goneOnly_s t.fut (cs.sp.t t (M.Slab.mem_values_of_get _ _ _ hg)) gone
+    rcases cs.nd tid t hg (fun e => by cases e) dead with h1 | ⟨l, s, h1⟩
+    · rw [hr] at h1; cases h1
+    · have a := hall l (leaf_some_lt h1)
+      rcases (M.Hosts.runDirect_gl is hf canon acts os d h).2 l _ h1 with h2 | h2
+      · rw [a.1] at h2; cases h2
+      · rw [a.2] at h2; cases h2
+
+/-- a task that `run_task` keeps although it is suspended only at closed requests is queued or held by a channel — the
+    step `NDS` rests on, for every fuel and world -/
+theorem dead_task_is_evicted_queued_or_held (pn : Waker → Nat → World → Option (NextRes × World)) (f : Nat) (c tid : Nat)
+    (w w' : World) (h : runTaskF (pollBlock pn f) c tid w = some (.suspended, w')) (hw : HFc c w)
+    (hs : ∀ t ∈ (w.cmd c).tasks.values, simpleSB t.fut = true) (sok : SOk w) (hal : (w.cmd c).alive = true)
+    (hin : c < w.cmds.length) (t : Task) (hg : (w'.cmd c).tasks.get? tid = some t) (hd : deadOnlyB t.fut = true) :
+    tid ∈ (w'.cmd c).ready ∨ StaleW c tid w' :=
+  runTaskF_dead_stale pn f c tid w w' h hw hs sok hal hin t hg hd
+
+/-- non-vacuity, and the state the plain invariant `ND` cannot describe: join(select(A, B), C); the shell drops C and answers
+    B. The select completes, A's registration stays behind at its live channel: the task is stored, suspended only at closed
+    requests, NOT queued, not done — and held by channel 0. Dropping A then wakes it and it is evicted (kernel evaluation). -/
+def selProg : List Instr := [.join [.select [.req 1 1 (.lit 1)] [.req 2 2 (.lit 2)]] [.req 3 3 (.lit 3)]]
+example : hostFreeIs selProg = true ∧ simpleSIs selProg = true ∧ simpleIs selProg = false := by decide
+example : ((M.Hosts.runDirect (.task selProg) false [.drop 2, .res 1 7]).map fun r =>
+    (r.2.w.leaves.map (fun lf => (lf.senderAlive, lf.waker.isSome)), (r.2.w.cmd r.2.cid).ready,
+     (r.2.w.cmd r.2.cid).tasks.values.map (fun t => deadOnlyB t.fut), r.2.w.isDoneNow r.2.cid)) =
+    some ([(true, true), (false, false), (false, false)], [], [true], false) := by decide +kernel
+example : ((M.Hosts.runDirect (.task selProg) false [.drop 2, .res 1 7, .drop 0]).map fun r =>
+    (r.2.w.leaves.all (fun lf => !lf.senderAlive && !lf.legacy), (r.2.w.cmd r.2.cid).tasks.len, r.2.w.isDoneNow r.2.cid)) =
+    some (true, 0, true) := by decide +kernel
+
 -- no `handoff` anywhere in the program
 mutual
 def handoffFreeI : Instr → Bool
@@ -413,8 +466,8 @@ def handoffFreeIs : List Instr → Bool
   | i :: is => handoffFreeI i && handoffFreeIs is
 end
 
-/-- STATED, NOT PROVED beyond the simple fragment (`simple_command_done_when_all_requests_gone` above proves it for programs
-    without select and join handles): completeness of eviction where no request future changes hands — for every host-free task program
+/-- STATED, NOT PROVED beyond the simpleS fragment (`simple_command_done_when_all_requests_gone` and
+    `command_with_select_done_when_all_requests_gone` above prove it for programs without join handles): completeness of eviction where no request future changes hands — for every host-free task program
     without `handoff` under the direct host, after every history that leaves every request channel closed and empty, the
     command is done. No counterexample in ≥ 10^6 generated histories of the `complete` stream (every rejection of its oracle
     clause is a `handoff` program); the proof needs, on top of `GInv` and the invariant "a registered waker means a live
